@@ -3,6 +3,7 @@ import collections
 import io
 import itertools
 import json
+import os
 import sys
 import types
 
@@ -52,6 +53,69 @@ HEADING = {"rule": "reports", "pass": "pass", "info": "info", "fingerprint": "fi
 SHOW_OPTS = [None, ["rule"], ["pass", "info"], ["none"], ["rule", "pass", "info", "none", "metadata", "fingerprint"], ["metadata"], ["fingerprint", "none"]]
 
 
+CONFIGURED_LIMIT_CHILD = r"""
+import io, json, os, sys
+os.chdir(sys.argv[1])
+os.environ["HOME"] = sys.argv[1]
+where, limit = sys.argv[2], int(sys.argv[3])
+target = {"dir": ".insights.yaml", "user": os.path.join(".local", "insights.yaml")}[where]
+os.makedirs(os.path.dirname(os.path.abspath(target)), exist_ok=True)
+with open(target, "w") as f:
+    f.write("defaults:\n  max_detail_length: %d\n" % limit)
+from insights import settings
+from insights.core import dr
+from insights.core.evaluators import SingleEvaluator
+from insights.core.plugins import make_fail, rule, component
+@component()
+def present():
+    return 1
+@rule(present)
+def big(p):
+    return make_fail("BIG", data="x" * (limit + 50))
+@rule(present)
+def small(p):
+    return make_fail("SMALL", data="y" * 5)
+br = dr.Broker()
+resp = SingleEvaluator(br, stream=io.StringIO()).process(dr.get_dependency_graph(big) | dr.get_dependency_graph(small) if hasattr(dict, "__or__") else None)
+out = {"configured": settings.defaults.get("max_detail_length"), "reports": [dict(r.get("details") or {}) for r in resp.get("reports", [])]}
+sys.stdout.write(json.dumps(out))
+"""
+
+
+def directed(tier):
+    return [{"kind": "configured_limit", "where": w, "limit": lim} for w in ("dir", "user") for lim in (200, 1000)]
+
+
+def run_configured_limit(spec, ctx):
+    """the size limit as a USER configures it (./.insights.yaml, ~/.local/insights.yaml) - read when insights.settings is first
+    imported, hence in a new interpreter with its own working directory and HOME"""
+    import shutil
+    import subprocess
+    import tempfile
+    base = tempfile.mkdtemp(prefix="vpc12s_")
+    try:
+        cp = subprocess.run([sys.executable, "-c", CONFIGURED_LIMIT_CHILD, base, spec["where"], str(spec["limit"])], stdout=subprocess.PIPE,
+                            stderr=subprocess.PIPE, timeout=300, env=dict(os.environ))
+        if cp.returncode != 0:
+            ctx.count("harness_errors")
+            ctx.sets.setdefault("harness_error_texts", set()).add("configured-limit child: " + cp.stderr.decode("utf-8", "replace")[-600:])
+            return False
+        doc = json.loads(cp.stdout.decode())
+        ctx.count("configured_limits_checked")
+        big = [d for d in doc["reports"] if d.get("error_key") == "BIG"]
+        small = [d for d in doc["reports"] if d.get("error_key") == "SMALL"]
+        w = {"configured_in": spec["where"], "limit": spec["limit"], "settings_value": doc["configured"]}
+        if len(big) != 1 or len(small) != 1:
+            ctx.violation("response-not-reported-exactly-once", dict(w, reports=doc["reports"][:3]))
+        elif "max_detail_length_error" not in big[0] or "data" in big[0]:
+            ctx.violation("response-over-the-configured-limit-reported-in-full", dict(w, details_keys=sorted(big[0]), length=len(str(big[0]))))
+        elif "data" not in small[0]:
+            ctx.violation("malformed-response-entry", dict(w, problems=["small payload replaced by a stub"]))
+        return True
+    finally:
+        shutil.rmtree(base, ignore_errors=True)
+
+
 def gen_case(rng, tier, idx):
     rules = []
     for i in range(rng.randint(1, 25)):
@@ -75,6 +139,8 @@ def gen_case(rng, tier, idx):
 
 
 def nontrivial(spec):
+    if spec.get("kind") == "configured_limit":
+        return True
     return len(spec["rules"]) >= 3 and len(set(r["outcome"] for r in spec["rules"])) >= 3
 
 
@@ -90,6 +156,8 @@ def variants():
 
 
 def run_case(spec, ctx):
+    if spec.get("kind") == "configured_limit":
+        return run_configured_limit(spec, ctx)
     import yaml
     from insights import settings
     from insights.core import dr
